@@ -421,7 +421,7 @@ def _corrupt(ev):
             e["outs"][0]["res"]["bytes"].append(0)
         elif op == "cobs_ops" and any(c[0] == "patch" for c in e["calls"]):
             c = next(c for c in e["calls"] if c[0] == "patch")
-            c[1] += 1
+            c[1] = c[2]          # a patch at the cursor: one past what has been produced
         elif op == "userflavor" and len(e["calls"]) >= 2:
             e["calls"].pop(0)
         elif op in ("cobs_take", "cobs_from"):
